@@ -81,8 +81,11 @@ def get_intensity(image, vertex, layers=1, **kwargs):
 def get_layer_elements(position, layers=1):
     pixel_positions = []
     layer_range = np.arange(-layers, layers + 1)
+    # whole pixels around the pixel the position falls into (as getpixel takes it): adding the
+    # offsets to a float position can round across an integer and skip a row or column
+    x_pixel, y_pixel = int(position[0]), int(position[1])
     for (ii, kk) in itertools.product(layer_range, layer_range):
-        xy_pixel = (position[0] + ii, position[1] + kk)
+        xy_pixel = (x_pixel + ii, y_pixel + kk)
         pixel_positions.append(xy_pixel)
     return pixel_positions
 
